@@ -16,13 +16,14 @@ pub fn check(tier: Tier) -> Check {
     let parts = vec![
         Part::new("C03/short", json!({"max_len": tier.pick(14, 19)}), 0, tier.pick(50, 900)),
         Part::new("C03/eof", json!({"max_len": tier.pick(9, 12)}), 0, tier.pick(50, 600)),
-        Part::new("C03/long", json!({"big": tier == Tier::Thorough, "narrow": tier == Tier::Quick}), 0, tier.pick(50, 900)),
+        Part::new("C03/long", json!({"big": tier == Tier::Thorough, "narrow": tier == Tier::Quick}), 0, tier.pick(50, 600)),
+        Part::new("C03/long", json!({"huge": true, "pairs": tier == Tier::Thorough}), 0, tier.pick(50, 300)),
     ];
     Check {
         also_rel: true,
         property: "C03",
         level: "model_checking",
-        rule: "(S1) every 2- and 3-packet sequence over {PINGRESP, short PUBACK, SUBACK, inbound PUBLISH QoS 0/1 with a small payload} up to the stated total length x all 2^(n-1) compositions of the byte stream into reads x {all chunks immediately available, Pending between chunks}; (S1e) every 1-2-packet stream up to a small total length cut short after every prefix by end-of-stream / read error, under every composition of the prefix; (S2) PUBLISH packets of 126..131, 510..516, 1022..1028, 1534..1540, 2046..2052, 4096, 16383..16390 bytes (quick: 127..129, 511..514, 1023..1026, 1536, 2047..2050, 16384..16386; thorough also 70000, 2097160) preceded by 0-2 small packets x {every single cut, every pair of cuts within +-3 of packet boundaries and multiples of 512, every uniform chunk size 1..=40 and 511..513, 1023..1025} x both reader modes; run in the overflow-checked and the wrapping-arithmetic build; oracle: reference framing at every quiescent point, no unread visible bytes at quiescence, no end-of-stream before the transport's, no zero-length read; non-trivial = a packet was split across reads".into(),
+        rule: "(S1) every 2- and 3-packet sequence over {PINGRESP, short PUBACK, SUBACK, inbound PUBLISH QoS 0/1 with a small payload} up to the stated total length x all 2^(n-1) compositions of the byte stream into reads x {all chunks immediately available, Pending between chunks}; (S1e) every 1-2-packet stream up to a small total length cut short after every prefix by end-of-stream / read error, under every composition of the prefix; (S2) PUBLISH packets of 126..131, 510..516, 1022..1028, 1534..1540, 2046..2052, 4096, 16383..16390 bytes (quick: 127..129, 511..514, 1023..1026, 1536, 2047..2050, 16384..16386; thorough also 70000; a 2097160-byte packet (four-byte remaining length) with every single cut (thorough: every pair of cuts) near the interesting offsets) preceded by 0-2 small packets x {every single cut, every pair of cuts within +-3 of packet boundaries and multiples of 512, every uniform chunk size 1..=40 and 511..513, 1023..1025} x both reader modes; run in the overflow-checked and the wrapping-arithmetic build; oracle: reference framing at every quiescent point, no unread visible bytes at quiescence, no end-of-stream before the transport's, no zero-length read; non-trivial = a packet was split across reads".into(),
         assumptions: vec!["packets are well-formed (malformed input is C04)".into()],
         parts,
     }
@@ -209,6 +210,9 @@ pub fn scenario(name: &str, params: &Value) -> Scenario {
     // ---- long streams
     let big = params["big"].as_bool().unwrap_or(false);
     let narrow = params["narrow"].as_bool().unwrap_or(false);
+    // a four-byte remaining length: one packet size, cuts only near the interesting offsets
+    let huge = params["huge"].as_bool().unwrap_or(false);
+    let pairs = params["pairs"].as_bool().unwrap_or(true);
     Box::new(move |chz, ex| {
         let mut sizes: Vec<usize> = vec![];
         if narrow {
@@ -222,7 +226,9 @@ pub fn scenario(name: &str, params: &Value) -> Scenario {
         }
         if big {
             sizes.push(70_000);
-            sizes.push(2_097_160);
+        }
+        if huge {
+            sizes = vec![2_097_160];
         }
         let size = sizes[chz.choose(sizes.len())];
         let lead = chz.choose(3);
@@ -274,7 +280,7 @@ pub fn scenario(name: &str, params: &Value) -> Scenario {
         }
         let n = bytes.len();
         let pending_between = chz.choose(2) == 1;
-        let family = chz.choose(3);
+        let family = if huge { 1 } else { chz.choose(3) };
         let cuts: Vec<usize> = match family {
             0 => {
                 // every single cut position (long packets: all positions near the interesting
@@ -311,7 +317,7 @@ pub fn scenario(name: &str, params: &Value) -> Scenario {
                 }
                 near.sort();
                 let i = chz.choose(near.len());
-                let j = chz.choose(near.len());
+                let j = if pairs { chz.choose(near.len()) } else { i };
                 let mut c = vec![near[i], near[j]];
                 c.sort();
                 c.dedup();
